@@ -78,6 +78,12 @@ Example preimages_nonvacuous :
   obj_ok (OKey (repeat x07 32)) /\ obj_ok (OScript (MNative (NAll [NPubkey (repeat x01 28); NNofK 1 [NBefore 5; NAfter 9]]))).
 Proof. split; cbn; [lia|exact I]. Qed.
 
+(* the premise obj_ok is needed: a plain VerificationKey object holding more than 32 bytes (e.g. the CBOR of an
+   extended key loaded through the non-extended class) is hashed whole by the code, which is NOT the specified key hash *)
+Lemma preimages_key_premise_needed :
+  exists (H : nat -> bytes -> bytes) (p : bytes), length p = 64%nat /\ m_id spec_cfg H (OKey p) <> spec_id H (OKey p).
+Proof. exists (fun _ m => m), (repeat x2a 64). split; [reflexivity|]. cbv. discriminate. Qed.
+
 (* script hashes: no premise is needed *)
 Lemma m_script_hash_spec c : c = spec_cfg -> forall H m, m_script_hash c H m = script_hash H (as_script m).
 Proof. intros E H m. unfold m_script_hash. now destruct (preimages c E H (OScript m) I). Qed.
